@@ -38,6 +38,11 @@ def run(ctx):
     ncli = [0]
     for i in range(300 if ctx.quick else 6000):
         w = World(rnd, big_tids=True, allow_zero_tid=(i % 2 == 0))      # odd i: dumps with logs
+        if i % 6 == 0:
+            # a thread whose id is the largest / the sign-bit 64-bit value (a NEGATIVE filter value has the same bit pattern)
+            big = rnd.choice([(1 << 64) - 1, 1 << 63, (1 << 64) - 2])
+            w.tids[3] = big
+            w.rtids[big] = 3
         g = gen.ProgGen(w, rnd, ntids=3, noise=0.1)
         progs = [g.program(t, rnd.randrange(1, 4)) for t in (1, 2, 3)]
         stream = gen.interleave(rnd, progs)[:60]
@@ -62,6 +67,9 @@ def run(ctx):
                                         {'kind': 'name', 'name': rnd.choice(['p1', 'other', 'nobody', '', '12', '501', '0', '012'])}]),
                    'fclass': list(rnd.choice(CLASS_LISTS)), 'fsub': list(rnd.choice(SUB_LISTS))}
             apply_cfg(w, p, cfg, as_tuple=(i + j) % 2 == 0)
+            if i % 6 == 0 and rnd.random() < 0.5:
+                # a thread id no record carries AS A NUMBER (negative / beyond 64 bits): the listing is empty
+                p.filter_tid = rnd.choice([-1, -(1 << 63), -2, 1 << 64])
             op = 'logs' if logs is not None and rnd.random() < 0.4 else 'kevents'
             r, _ = request(w, p, dump, op)
             reqs.append(r)
